@@ -1353,6 +1353,10 @@ func makeTaskForMesosResources(
 			}
 			// TODO: this can be optimized by excluding the base range outside the loop
 			availPorts = availPorts.Remove(mesos.Value_Range{Begin: 0, End: 8999})
+			if len(availPorts) == 0 {
+				// no offered port is left in the range of dynamic ports, this offer cannot take the task
+				return nil, nil
+			}
 			port := availPorts.Min()
 			builder := resources.Build().
 				Name(resources.Name("ports")).
@@ -1416,6 +1420,10 @@ func makeTaskForMesosResources(
 	// The control port range starts at 47101
 	// FIXME: make the control ports cutoff configurable
 	availPorts = availPorts.Remove(mesos.Value_Range{Begin: 0, End: 29999})
+	if len(availPorts) == 0 {
+		// no offered port is left in the range of control ports, this offer cannot take the task
+		return nil, nil
+	}
 	controlPort := availPorts.Min()
 	builder := resources.Build().
 		Name(resources.Name("ports")).
